@@ -76,6 +76,22 @@ func TestVerifC10ScriptedServer(t *testing.T) {
 			s.ALPN = &a
 		}
 		s.SendTicket = rapid.Bool().Draw(rt, "ticket")
+		// extensions a compliant server may put into EncryptedExtensions besides ALPN: its supported_groups
+		// (RFC 8446 4.2.7; OpenSSL sends it when the selected group is not its first preference) and the empty
+		// server_name acknowledgement (RFC 6066 section 3) when the client sent a name
+		eeKind := rapid.IntRange(0, 3).Draw(rt, "ee_extras")
+		if eeKind&1 != 0 {
+			gl := &vsrvB{}
+			inner := &vsrvB{}
+			for _, g := range rapid.SliceOfN(rapid.SampledFrom([]uint16{0x11ec, 0x001d, 0x0017, 0x0018, 0x0019, 0x001e, 0x0100, 0x0101}), 1, 6).Draw(rt, "ee_groups") {
+				inner.u16(g)
+			}
+			gl.vec16(inner.b)
+			s.ExtraEEExts = append(s.ExtraEEExts, vfExt{Type: extensionSupportedCurves, Body: gl.b})
+		}
+		if eeKind&2 != 0 && o.HasSNI {
+			s.ExtraEEExts = append(s.ExtraEEExts, vfExt{Type: extensionServerName})
+		}
 		keys := vfCertKeysFor(o, VersionTLS13, "")
 		if len(keys) == 0 {
 			return
@@ -88,6 +104,9 @@ func TestVerifC10ScriptedServer(t *testing.T) {
 		desc := fmt.Sprintf("%s | scripted server suite=%04x group=%04x hrr=%v(%04x,cookie %d) alpn=%v", src, s.Suite, s.SentGroup, s.HRR, s.HRRGroup, len(s.HRRCookie), s.ALPN != nil)
 		st.Class(fmt.Sprintf("suite=%04x", s.Suite))
 		st.Class(fmt.Sprintf("group=%04x", s.SentGroup))
+		for _, e := range s.ExtraEEExts {
+			st.Class(fmt.Sprintf("ee-extra-ext=%d", e.Type))
+		}
 		if s.HRR {
 			st.Class("hrr")
 			if s.HRRCookie != nil {
